@@ -367,6 +367,11 @@ impl std::str::FromStr for Relation {
             loop {
                 match tokens.next() {
                     Some((IDENT, s)) => archs.push(s),
+                    // a negated architecture keeps its '!' ("!amd64")
+                    Some((NOT, _)) => match tokens.next() {
+                        Some((IDENT, s)) => archs.push(format!("!{}", s)),
+                        _ => return Err("Expected architecture name".to_string()),
+                    },
                     Some((WHITESPACE | NEWLINE, _)) => {}
                     Some((R_BRACKET, _)) => break,
                     _ => return Err("Expected architecture name".to_string()),
